@@ -64,6 +64,9 @@ pub fn session_roots(seed: u64, n: usize) -> Vec<History> {
         "r3k2r/1P4P1/8/8/8/8/1p4p1/R3K2R w KQkq -",
         "rnbqkbnr/ppp1pppp/8/8/3pP3/8/PPPP1PPP/RNBQKBNR b KQkq e3",
         "4k3/PPP1P1PP/8/8/8/8/ppp1p1pp/4K3 w - -",
+        // quiet middle games in which both sides may castle either way (two special successors at the root)
+        "r3k2r/pppq1ppp/2np1n2/2b1p3/2B1P1b1/2NP1N2/PPPQ1PPP/R3K2R w KQkq -",
+        "r3k2r/ppp1qppp/2n1bn2/3pp3/3PP3/2N1BN2/PPP1QPPP/R3K2R b KQkq -",
     ] {
         let p = Pos::parse_fen(fen).unwrap();
         if is_legal_position(&p) && has_legal_move(&p) {
@@ -125,7 +128,7 @@ pub fn run_session(bin: &PathBuf, mode: &Mode, roots: &[History], seed: u64, sid
     let mut panics_seen = 0usize;
     'outer: for _step in 0..steps {
         let special = rng.chance(1, 6);
-        let hist = if special { &roots[rng.below(7.min(roots.len() as u64)) as usize] } else { &roots[rng.below(roots.len() as u64) as usize] };
+        let hist = if special { &roots[rng.below(9.min(roots.len() as u64)) as usize] } else { &roots[rng.below(roots.len() as u64) as usize] };
         s.position(hist);
         let chain = if special { 2 + rng.below(3) as usize } else { 1 + rng.below(max_chain as u64) as usize };
         for ci in 0..chain {
@@ -137,7 +140,15 @@ pub fn run_session(bin: &PathBuf, mode: &Mode, roots: &[History], seed: u64, sid
             if legal.is_empty() {
                 break; // terminal positions belong to C08
             }
-            let args = if special && rng.chance(3, 4) { String::new() } else { go_args(&mut rng, cur.stm, 150) };
+            // special roots: mostly a bare go; a quarter with a slice of some 30 ms, so that the board
+            // kept for the next go comes out of a search of several iterations
+            let args = if special && rng.chance(1, 2) {
+                String::new()
+            } else if special && rng.chance(1, 2) {
+                format!("wtime {} btime {} movestogo 1", 130 + rng.below(30), 130 + rng.below(30))
+            } else {
+                go_args(&mut rng, cur.stm, 150)
+            };
             let mut g = s.go(&args, WATCHDOG);
             go_count += 1;
             acc.evaluations += 1;
